@@ -207,9 +207,16 @@ class AmpExecutor(readfile.ReadFileExecutor):
         return super().b_len(st, args, kwargs, node)
 
     def local_helper(self, f):
-        """`only_repeat_helpers`: inline_local restricted to the helpers that matter for the amplification obligations: a helper is
+        """Any small function of the module under verification that has no contract of its own is executed in place (the engine's
+        rule asks for a leading underscore; a helper is a helper whatever its name).  `only_repeat_helpers`: inline_local restricted to the helpers that matter for the amplification obligations: a helper is
         executed in place when it (or a local helper it calls) contains a repetition `*`; everything else stays an unknown call."""
-        if not super().local_helper(f):
+        if not getattr(self, "inline_local", False) or f.a != self.module.rel or self.inline_depth >= 3:
+            return False
+        name = f.b.split(".")[-1]
+        if name.startswith("__"):
+            return False
+        fnode = self.module.functions.get(f.b)
+        if fnode is None or any(fnode is x for x in self.cur_fn_stack) or sum(1 for _ in ast.walk(fnode)) > 700:
             return False
         if not self.only_repeat_helpers:
             return True
@@ -542,8 +549,9 @@ def regular_members_only(arch, oid):
     f = arch.functions.get("_extract_from_tar_optimized")
     if f is None:
         return ground_obligation(oid, False, "function missing", ARCH, definite=False)
-    reads = [n for n in ast.walk(f) if isinstance(n, ast.Call) and isinstance(n.func, ast.Attribute) and n.func.attr in ("extractfile", "extract", "extractall")]
-    odd = [n for n in reads if not (n.args and isinstance(n.args[0], ast.Name))]
+    from contracts import archive_guards
+    reads, arg_of = archive_guards.member_reads(arch, f, ("extractfile", "extract", "extractall"))
+    odd = [n for n in reads if not isinstance(arg_of.get(id(n)), ast.Name)]
     if not reads or odd:
         return ground_obligation(oid, False, "no member read through a member object found" if not reads else
                                  f"line {odd[0].lineno}: `{ast.unparse(odd[0])}` does not name the member it reads", ARCH, definite=False)
@@ -556,7 +564,7 @@ def regular_members_only(arch, oid):
                 out.append(("isreg", e.func.value.id))
         return out
 
-    mf = MustFacts(gen_cond=gen_cond, need=lambda n: [(("isreg", n.args[0].id), f"line {n.lineno}")] if any(n is r for r in reads) else [],
+    mf = MustFacts(gen_cond=gen_cond, need=lambda n: [(("isreg", arg_of[id(n)].id), f"line {n.lineno}")] if any(n is r for r in reads) else [],
                    kill_names=lambda fact: [fact[1]])
     res = mf.run(f)
     bad = [r for r in res if not r.ok]
